@@ -234,6 +234,8 @@ pub struct WorldGen {
     pub flags: Flags,
     pub query_ops: bool,
     pub extreme: bool,
+    /// the admin may re-route (new channel, new staker / collector), in one or in two sections of one message
+    pub reroute: bool,
 }
 
 impl WorldGen {
@@ -248,6 +250,7 @@ impl WorldGen {
             flags: Flags { routing_changed: false, forced_recovery: false, dishonest_operator: false, resumed_nonzero: false },
             query_ops: true,
             extreme: false,
+            reroute: false,
         }
     }
 
@@ -263,6 +266,7 @@ impl WorldGen {
             flags: Flags { routing_changed: false, forced_recovery: false, dishonest_operator: false, resumed_nonzero: false },
             query_ops: true,
             extreme: true,
+            reroute: false,
         }
     }
 
@@ -451,7 +455,8 @@ impl WorldGen {
                 if self.extreme && self.r.chance(40) {
                     a = amount_extreme(&mut self.r, 1).max(1);
                 }
-                let col = v.cfg.native_chain_config.reward_collector_address.to_string();
+                // the collector the admin configured (the stored one unless an update was lost)
+                let col = self.s.collector.clone();
                 self.w.native_faucet(&col, D, a);
                 let ch = self.s.channel.clone();
                 self.w.hook(&col, &ch, CHAIN_PREFIX, D, D, a, "rewards");
@@ -489,7 +494,7 @@ impl WorldGen {
                         }
                         _ => exp,
                     };
-                    let staker = v.cfg.native_chain_config.staker_address.to_string();
+                    let staker = self.s.staker.clone();
                     let have = self.w.chain.nbal(&staker, D);
                     if have < a {
                         // the operator tops up from elsewhere (long delivery) -- not honest backing
@@ -607,7 +612,56 @@ impl WorldGen {
         }
     }
 
+    /// UpdateConfig that changes the routing: a new channel (protocol section), new staker and collector (native section),
+    /// or both sections in one message. The generator follows what the admin configured: later hook deliveries come over
+    /// the new channel from the new accounts.
+    fn reroute_op(&mut self, v: &View, admin: &str) {
+        let n = &v.cfg.native_chain_config;
+        let k = self.r.below(1000);
+        let new_staker = addr(&self.s.native_prefix, &format!("staker-{k}"), 20);
+        let new_coll = addr(&self.s.native_prefix, &format!("collector-{k}"), 20);
+        let new_ch = format!("channel-{}", 7000 + k);
+        let native = format!(
+            "({};{};{};{};{};{};{})",
+            hs(&n.account_address_prefix),
+            hs(&n.validator_address_prefix),
+            hs(&n.token_denom),
+            s_list(&n.validators, |a| hs(a.as_str())),
+            n.unbonding_period,
+            hs(&new_staker),
+            hs(&new_coll)
+        );
+        let p = &v.cfg.protocol_chain_config;
+        let protocol = format!(
+            "({};{};{};{};{})",
+            hs(CHAIN_PREFIX),
+            hs(D),
+            hs(&new_ch),
+            p.minimum_liquid_stake_amount.u128(),
+            s_opt(&p.oracle_address, |o| hs(o.as_str()))
+        );
+        let (ns, ps) = match self.r.below(3) {
+            0 => (native.clone(), "-".to_string()),
+            1 => ("-".to_string(), protocol.clone()),
+            _ => (native.clone(), protocol.clone()),
+        };
+        if self.w.exec(None, admin, vec![], &format!("updcfg {} {} - - -", ns, ps)) {
+            self.flags.routing_changed = true;
+            if ns != "-" {
+                self.s.staker = new_staker;
+                self.s.collector = new_coll;
+            }
+            if ps != "-" {
+                self.s.channel = new_ch;
+            }
+        }
+    }
+
     fn admin_op(&mut self, v: &View, admin: &str) {
+        if self.reroute && self.r.chance(12) {
+            self.reroute_op(v, admin);
+            return;
+        }
         let who = if self.r.chance(85) { admin.to_string() } else { self.user() };
         match self.r.below(12) {
             0 => {
